@@ -25,6 +25,12 @@ def run(ctx):
     if len(scs) > 40000:
         rnd = random.Random(ctx.seed)
         scs = rnd.sample(scs, 40000)
+    # a writer that pauses inside an event (0.9 s: shorter than the 2 s reassembly time-out, longer than its maintenance
+    # interval) while records of another event follow: still one event
+    gaps = [s for s in scs if s["fault"]["kind"] == "none" and len(s["order"]) >= 3 and s["order"][0][1] == "S"
+            and s["order"][1][0] != s["order"][0][0]]
+    for s in random.Random(ctx.seed + 2).sample(gaps, min(6 if ctx.quick else 40, len(gaps))):
+        scs.append(dict(s, pauseAt=1, pauseMs=900))
     sp = ctx.path("scen.jsonl")
     with open(sp, "w") as f:
         for s in scs:
